@@ -70,11 +70,30 @@ def _check_resolver(repo, res, fq):
             res.ob(f"{fq}:div-join")
             res.add("C22-GUARD", fq, f"div-join:{text(n)[:40]}", f"{fq}: `{text(n)[:60]}` joins a name-derived path with `/` outside the checked joinpath sink", f.file, n.lineno)
 
+    # locals that are a plain copy / str() of the checked path variable, bound once, after the last
+    # binding of that variable (`relative_path = str(template_path)` hoisted out of the loop)
+    derived = {}
+    stores = {}
+    for st in walk_no_nested(node):
+        if isinstance(st, ast.Assign) and len(st.targets) == 1 and isinstance(st.targets[0], ast.Name):
+            stores.setdefault(st.targets[0].id, []).append(st)
+    for name, sts in stores.items():
+        if len(sts) != 1:
+            continue
+        v = unwrap_await(sts[0].value)
+        if isinstance(v, ast.Call) and is_name(v.func, "str") and len(v.args) == 1:
+            v = v.args[0]
+        if isinstance(v, ast.Name) and v.id in stores and all(x.lineno < sts[0].lineno for x in stores[v.id]):
+            derived[name] = v.id
+
     def var_of(e):
-        """The tainted path variable an argument expression stands for: x, str(x)."""
+        """The tainted path variable an argument expression stands for: x, str(x), or a local
+        bound once to one of those."""
         e = unwrap_await(e)
         if isinstance(e, ast.Call) and is_name(e.func, "str") and e.args:
             e = e.args[0]
+        if isinstance(e, ast.Name) and e.id in derived:
+            return derived[e.id]
         return e.id if isinstance(e, ast.Name) else None
 
     def gen_cond(test, truth):
@@ -191,39 +210,90 @@ def run(repo: Repo) -> Result:
     pk, _ = _check_resolver(repo, res, f"{PK}._resolve_path")
 
     # ---- C22-SYMLINK ----------------------------------------------------------
+    # Read on path conditions (sa/guards.py): every `return <candidate>` of resolve_path is reached
+    # under a condition C with  C and self.reject_symlinks  =>  contained(candidate, base), where
+    # `contained` is `<candidate>.resolve().is_relative_to(<base>.resolve())` — written in place
+    # (through locals) or in a helper predicate that does exactly that with its two parameters.
+    from ..guards import exits as _exits
+
     node = fs.node
     res.ob(f"{fs.qual}:symlink", 2)
-    sym_if = None
-    for st in walk_no_nested(node):
-        if isinstance(st, ast.If) and is_self_attr(st.test, "reject_symlinks"):
-            sym_if = st
-    if sym_if is None:
-        res.add("C22-SYMLINK", fs.qual, "no-branch", "resolve_path has no `if self.reject_symlinks:` branch", fs.file, fs.line)
-    else:
-        # inside: resolved = <cand>.resolve(...), base_resolved = <base>.resolve(...);
-        #         if not resolved.is_relative_to(base_resolved): continue
-        binds = {}
-        for st in ast.walk(sym_if):
-            if isinstance(st, ast.Assign) and isinstance(st.value, ast.Call) and callee_name(st.value) == "resolve" and isinstance(call_recv(st.value), ast.Name):
-                binds[st.targets[0].id] = call_recv(st.value).id
-        ok = False
-        for st in ast.walk(sym_if):
-            if isinstance(st, ast.If) and isinstance(st.test, ast.UnaryOp) and isinstance(st.test.op, ast.Not):
-                c = st.test.operand
-                if isinstance(c, ast.Call) and callee_name(c) == "is_relative_to" and isinstance(call_recv(c), ast.Name) and c.args and isinstance(c.args[0], ast.Name):
-                    cand, base = binds.get(call_recv(c).id), binds.get(c.args[0].id)
-                    loop_var = next((n.target.id for n in walk_no_nested(node) if isinstance(n, ast.For) and isinstance(n.target, ast.Name)), None)
-                    if cand in fs_joined and base == loop_var and len(st.body) == 1 and isinstance(st.body[0], (ast.Continue, ast.Raise)):
-                        ok = True
-        if not ok:
-            res.add("C22-SYMLINK", fs.qual, "is_relative_to", "with reject_symlinks the candidate must be skipped unless candidate.resolve().is_relative_to(base.resolve())", fs.file, sym_if.lineno)
-        # the branch must precede the return in the loop body
-        loop = next((n for n in walk_no_nested(node) if isinstance(n, ast.For)), None)
-        if loop is not None:
-            idx_if = next((i for i, s in enumerate(loop.body) if s is sym_if), None)
-            idx_ret = next((i for i, s in enumerate(loop.body) if isinstance(s, ast.Return)), None)
-            if idx_if is None or idx_ret is None or not idx_if < idx_ret:
-                res.add("C22-SYMLINK", fs.qual, "order", "the symlink test must come before `return source_path` in the search loop", fs.file, sym_if.lineno)
+    loop_var = next((n.target.id for n in walk_no_nested(node) if isinstance(n, ast.For) and isinstance(n.target, ast.Name)), None)
+    binds = {}
+    for st in ast.walk(node):
+        if isinstance(st, ast.Assign) and len(st.targets) == 1 and isinstance(st.targets[0], ast.Name) and isinstance(st.value, ast.Call) and callee_name(st.value) == "resolve" and isinstance(call_recv(st.value), ast.Name):
+            binds[st.targets[0].id] = call_recv(st.value).id
+
+    def resolved_of(e, env):
+        """the variable whose .resolve() the expression is (through `env` locals)"""
+        if isinstance(e, ast.Name):
+            return env.get(e.id)
+        if isinstance(e, ast.Call) and callee_name(e) == "resolve" and isinstance(call_recv(e), ast.Name):
+            return call_recv(e).id
+        return None
+
+    def helper_contains(call):
+        """H(a, b) where every non-constant return of H is P.resolve().is_relative_to(Q.resolve()):
+        -> (argument for P, argument for Q)"""
+        nm = callee_name(call)
+        target = repo.find_method(fs.cls, nm) if isinstance(call.func, ast.Attribute) and fs.cls is not None else fs.module.functions.get(nm)
+        if target is None:
+            return None
+        hb = {}
+        for st in ast.walk(target.node):
+            if isinstance(st, ast.Assign) and len(st.targets) == 1 and isinstance(st.targets[0], ast.Name) and isinstance(st.value, ast.Call) and callee_name(st.value) == "resolve" and isinstance(call_recv(st.value), ast.Name):
+                hb[st.targets[0].id] = call_recv(st.value).id
+        params = [p for p in target.params() if p not in ("self", "cls")]
+        found = None
+        for r in ast.walk(target.node):
+            if not isinstance(r, ast.Return) or r.value is None:
+                continue
+            v = r.value
+            if isinstance(v, ast.Constant) and v.value is False:
+                continue
+            if isinstance(v, ast.Call) and callee_name(v) == "is_relative_to" and v.args:
+                p_, q_ = resolved_of(call_recv(v), hb), resolved_of(v.args[0], hb)
+                if p_ in params and q_ in params:
+                    found = (p_, q_)
+                    continue
+            return None
+        if found is None:
+            return None
+        args = {p: a for p, a in zip(params, call.args)}
+        for k in call.keywords:
+            args[k.arg] = k.value
+        pa, qa = args.get(found[0]), args.get(found[1])
+        return (pa.id, qa.id) if isinstance(pa, ast.Name) and isinstance(qa, ast.Name) else None
+
+    def contains_atom(e):
+        """-> (candidate var, base var) if ``e`` asserts containment"""
+        if isinstance(e, ast.Call) and callee_name(e) == "is_relative_to" and e.args:
+            c_, b_ = resolved_of(call_recv(e), binds), resolved_of(e.args[0], binds)
+            return (c_, b_) if c_ and b_ else None
+        if isinstance(e, ast.Call):
+            return helper_contains(e)
+        return None
+
+    def implies_contained(c, cand) -> bool:
+        """(c and self.reject_symlinks) => contained(cand, <loop base>)"""
+        if isinstance(c, ast.BoolOp) and isinstance(c.op, ast.Or):
+            live = [v for v in c.values if not (isinstance(v, ast.UnaryOp) and isinstance(v.op, ast.Not) and is_self_attr(v.operand, "reject_symlinks"))]
+            return bool(live) and all(implies_contained(v, cand) for v in live)
+        if isinstance(c, ast.BoolOp) and isinstance(c.op, ast.And):
+            return any(implies_contained(v, cand) for v in c.values)
+        at = contains_atom(c)
+        return at is not None and at[0] == cand and at[1] == loop_var
+
+    rets = [e for e in _exits(node, resolve_locals=False) if e.kind == "return" and isinstance(e.node.value, ast.Name) and e.node.value.id in fs_joined]
+    if not rets:
+        res.add("C22-SYMLINK", fs.qual, "no-branch", "resolve_path returns no joined candidate", fs.file, fs.line)
+    mentions = any(isinstance(n, ast.Attribute) and is_self_attr(n, "reject_symlinks") for n in ast.walk(node))
+    if not mentions:
+        res.add("C22-SYMLINK", fs.qual, "no-branch", "resolve_path never consults self.reject_symlinks", fs.file, fs.line)
+    for e in rets:
+        cand = e.node.value.id
+        if not any(implies_contained(c, cand) for c in e.conds):
+            res.add("C22-SYMLINK", fs.qual, "is_relative_to", f"with reject_symlinks the candidate `{cand}` must be returned only if candidate.resolve().is_relative_to(base.resolve()) (conditions at the return: {e.canon})", fs.file, e.node.lineno)
 
     # ---- C22-READ ---------------------------------------------------------------
     READS = {"open", "read_text", "read_bytes", "read"}
